@@ -184,6 +184,24 @@ ComposeM(m, f, v, g) ==
       a == AndM(i.m, i.r, f)
   IN ExistsM(a.m, a.r, v)
 
+(* ---- and_lst / or_lst (left folds from the unit) and condition_model (one conditioning per assigned literal: the FALSE       *)
+(* assignments in ascending label order, then the TRUE ones - PartialModel::assignment_iter over its two bit sets) ----         *)
+RECURSIVE AndLstM(_, _, _), OrLstM(_, _, _), CondLitsM(_, _, _)
+AndLstM(m, acc, fs) == IF fs = << >> THEN [r |-> acc, m |-> m] ELSE LET a == AndM(m, acc, Head(fs)) IN AndLstM(a.m, a.r, Tail(fs))
+OrLstM(m, acc, fs) == IF fs = << >> THEN [r |-> acc, m |-> m] ELSE LET a == OrM(m, acc, Head(fs)) IN OrLstM(a.m, a.r, Tail(fs))
+CondLitsM(m, p, lits) ==
+  IF lits = << >> THEN [r |-> p, m |-> m]
+  ELSE LET x == Head(lits)
+           c == Condition(m, p, (IF x < 0 THEN 0 - x ELSE x) - 1, x > 0)
+       IN CondLitsM(c.m, c.r, Tail(lits))
+(* the literals of a partial model (a set of +-(v+1), one per variable) in the order the code visits them *)
+RECURSIVE AscSeq(_)
+AscSeq(S) == IF S = {} THEN << >> ELSE LET x == CHOOSE y \in S : \A z \in S : y <= z IN <<x>> \o AscSeq(S \ {x})
+ModelOrder(L) == [i \in 1 .. Cardinality({x \in L : x < 0}) |-> 0 - AscSeq({0 - x : x \in {y \in L : y < 0}})[i]] \o AscSeq({x \in L : x > 0})
+CondModelM(m, p, L) == CondLitsM(m, p, ModelOrder(L))
+RECURSIVE SCondLits(_, _)
+SCondLits(f, lits) == IF lits = << >> THEN f ELSE SCondLits(SCond(f, (IF Head(lits) < 0 THEN 0 - Head(lits) ELSE Head(lits)) - 1, Head(lits) > 0), Tail(lits))
+
 (* ---- compile_cnf as coded (src/builder/bdd/builder.rs): stored clauses (sorted by label) are ordered by an insertion sort     *)
 (* (slices of <= 20 elements) whose key is the level of the clause's LAST literal - the `max_by` in the comparator never answers *)
 (* Greater, so it returns the last element whatever the order is; named deviation LastLiteralKey, harmless for the function -,   *)
